@@ -488,6 +488,8 @@ def source(rng):
         net = gen_network(rng, 2, rng.randint(1, 4), rng.choice([4, 8, 14]), srsw=True, allow_close=False)
     else:
         net = gen_network(rng, rng.randint(3, 5), rng.randint(1, 3), 8, srsw=True, allow_close=False)
+    if rng.random() < 0.6:
+        net['payload'] = 'heap'
     return to_source(net)
 
 
